@@ -150,6 +150,13 @@ impl<VM: VMBinding> PageResource<VM> for MonotonePageResource<VM> {
             }
             self.commit_pages(reserved_pages, required_pages, tls);
 
+            #[cfg(feature = "verif")]
+            crate::util::verif::c28::log(
+                &self.common,
+                crate::util::verif::c28::GRANT,
+                rtn,
+                required_pages,
+            );
             Result::Ok(PRAllocResult {
                 start: rtn,
                 pages: required_pages,
@@ -219,6 +226,13 @@ impl<VM: VMBinding> MonotonePageResource<VM> {
         let mut guard = self.sync.lock().unwrap();
         self.common().accounting.reset();
         self.release_pages(&mut guard);
+        #[cfg(feature = "verif")]
+        crate::util::verif::c28::log(
+            &self.common,
+            crate::util::verif::c28::RELEASE_ALL,
+            Address::ZERO,
+            0,
+        );
         drop(guard);
     }
 
@@ -275,6 +289,13 @@ impl<VM: VMBinding> MonotonePageResource<VM> {
             self.common.accounting.reserve_and_commit(pages);
             guard.current_chunk = chunk;
             guard.cursor = cursor;
+            #[cfg(feature = "verif")]
+            crate::util::verif::c28::log(
+                &self.common,
+                crate::util::verif::c28::TRUNCATE,
+                cursor,
+                pages,
+            );
         } else {
             let mut chunk_start = self.common.get_head_discontiguous_region();
             let mut release_regions = false;
@@ -306,6 +327,13 @@ impl<VM: VMBinding> MonotonePageResource<VM> {
             let pages = bytes_to_pages_up(live_size);
             self.common.accounting.reset();
             self.common.accounting.reserve_and_commit(pages);
+            #[cfg(feature = "verif")]
+            crate::util::verif::c28::log(
+                &self.common,
+                crate::util::verif::c28::TRUNCATE_DISCONTIGUOUS,
+                top.align_up(BYTES_IN_PAGE),
+                pages,
+            );
         }
     }
 
